@@ -42,6 +42,8 @@ def run(prog, R, tier="quick", only_rule=None):
     c07.c07f(prog, R, rid="C01.i")
     # a stored hash index must never answer `absent` for a key that is in the block
     c11.c11c(prog, R, rid="C01.j")
+    # a trivial move must not put newer data underneath older data of an intermediary level
+    c07.c07h(prog, R, rid="C01.k")
 
 
 def c01a(prog, R):
